@@ -109,7 +109,9 @@ let dbg_char_body ~(in_str : bool) (c : int) : string =
   else if c = 0x5C then "\\\\"
   else if c = 0x22 then (if in_str then "\\\"" else "\"")
   else if c = 0x27 then (if in_str then "'" else "\\'")
-  else if c < 0x20 || c = 0x7F then Printf.sprintf "\\u{%x}" c
+  else if c < 0x20 || (c >= 0x7F && c <= 0xA0) || c = 0xAD || c = 0x1680 || (c >= 0x2000 && c <= 0x200F)
+          || (c >= 0x2028 && c <= 0x202F) || (c >= 0x205F && c <= 0x206F) || c = 0x3000 || c = 0xFEFF
+  then Printf.sprintf "\\u{%x}" c
   else (let b = Buffer.create 4 in encode_utf8 b c; Buffer.contents b)
 let dbg_str (s : str) : string =
   "\"" ^ String.concat "" (List.map (fun c -> dbg_char_body ~in_str:true (int_of_n c)) s) ^ "\""
